@@ -385,6 +385,10 @@ func RollCoC(src *rand.PCGSource, isBonus bool, diceNum IntType, mode int) (IntT
 
 	for i := IntType(0); i < diceNum; i++ {
 		n := Roll(src, 10, mode)
+		if mode == -1 && !isBonus {
+			// 惩罚骰取最小值时，十位骰应为0(即骰面10)，否则下界不成立
+			n = 10
+		}
 
 		if n == 10 {
 			num10Exists = true
